@@ -273,6 +273,11 @@ pub fn cost_search(_seed: u64) -> String {
                 if got != want {
                     return report("arith-costs", "*", flags, &args, got, want);
                 }
+                // a restriction flag (LIMITS) may turn the call into a failure, never change a success
+                let got_l = run(op_multiply, flags | ClvmFlags::LIMITS, &args, u64::MAX / 4);
+                if got_l.starts_with("Ok") && got_l != want {
+                    return report("arith-costs", "* under LIMITS", flags | ClvmFlags::LIMITS, &args, got_l, want);
+                }
             }
         }
         // ---- variadic accumulating operators: + - logand logior logxor --------------------------------
@@ -500,6 +505,83 @@ pub fn cost_search(_seed: u64) -> String {
                 let good = if ok { got.starts_with(&format!("Ok(cost {c}, ")) && got.len() == format!("Ok(cost {c}, )").len() + 64 } else { got == "Err(InvalidOpArg)" };
                 if !good {
                     return report("arith-costs", "coinid", flags, &args, got, if ok { format!("Ok(cost {c}, <32-byte digest>)") } else { "Err(InvalidOpArg)".into() });
+                }
+            }
+        }
+    }
+    // ---- BLS operators: cost accounting (the group operations themselves are C32) ------------------------
+    {
+        use clvmr::bls_ops::{op_bls_g1_multiply, op_bls_g1_subtract, op_bls_g2_add, op_bls_g2_multiply, op_bls_map_to_g1, op_bls_map_to_g2};
+        use clvmr::more_ops::{op_point_add, op_pubkey_for_exp};
+        for flags in [ClvmFlags::empty(), ClvmFlags::NEW_COST_MODEL] {
+            let new = flags.contains(ClvmFlags::NEW_COST_MODEL);
+            // valid points: pubkey_for_exp of small scalars, map_to_g2 of short messages
+            let mut g1s: Vec<Vec<u8>> = vec![];
+            let mut g2s: Vec<Vec<u8>> = vec![];
+            for k in [1u8, 2, 3] {
+                let mut a = Allocator::new();
+                let n = a.new_atom(&[k]).unwrap();
+                let l = list(&mut a, &[n]);
+                match op_pubkey_for_exp(&mut a, l, u64::MAX / 4, flags) {
+                    Ok(r) => {
+                        let want = 1325730 + 38 + 480;
+                        if r.0 != want {
+                            return report("arith-costs", "pubkey_for_exp", flags, &[vec![k]], format!("cost {}", r.0), format!("cost {want}"));
+                        }
+                        g1s.push(a.atom(r.1).as_ref().to_vec());
+                    }
+                    Err(e) => return report("arith-costs", "pubkey_for_exp", flags, &[vec![k]], format!("Err({})", kind(&e)), "Ok".into()),
+                }
+                let mut a = Allocator::new();
+                let n = a.new_atom(&[k; 5]).unwrap();
+                let l = list(&mut a, &[n]);
+                if let Ok(r) = op_bls_map_to_g2(&mut a, l, u64::MAX / 4, flags) {
+                    g2s.push(a.atom(r.1).as_ref().to_vec());
+                }
+            }
+            // scalar lengths x message / dst lengths
+            for len in [0usize, 1, 2, 31, 32, 33, 200] {
+                cases += 4;
+                let sc = vec![0x17u8; len];
+                let (c1, c2) = if new { (1_900_000 + 24 * len as u64, 3_000_000 + 23 * len as u64) } else { (705_500 + 10 * len as u64, 2_100_000 + 5 * len as u64) };
+                for (name, op, pt, want, size) in [("g1_multiply", op_bls_g1_multiply as Op, &g1s[0], c1 + 480, 48usize), ("g2_multiply", op_bls_g2_multiply as Op, &g2s[0], c2 + 960, 96usize)] {
+                    let args = vec![pt.clone(), sc.clone()];
+                    let got = run(op, flags, &args, u64::MAX / 4);
+                    if !(got.starts_with(&format!("Ok(cost {want}, ")) && got.len() == format!("Ok(cost {want}, )").len() + 2 * size) {
+                        return report("arith-costs", name, flags, &args, got, format!("Ok(cost {want}, <{size}-byte point>)"));
+                    }
+                }
+                for dl in [None, Some(0usize), Some(1), Some(3), Some(43), Some(200)] {
+                    let msg = vec![0x61u8; len];
+                    let mut args = vec![msg];
+                    if let Some(d) = dl {
+                        args.push(vec![0x44u8; d]);
+                    }
+                    let d = dl.unwrap_or(43) as u64;
+                    let w1 = if new { 700_000 + 3 * len as u64 + 2 * d } else { 195_000 + 4 * len as u64 + 4 * d } + 480;
+                    let w2 = if new { 2_700_000 + 3 * len as u64 + 2 * d } else { 815_000 + 4 * len as u64 + 4 * d } + 960;
+                    for (name, op, want, size) in [("g1_map", op_bls_map_to_g1 as Op, w1, 48usize), ("g2_map", op_bls_map_to_g2 as Op, w2, 96usize)] {
+                        let got = run(op, flags, &args, u64::MAX / 4);
+                        if !(got.starts_with(&format!("Ok(cost {want}, ")) && got.len() == format!("Ok(cost {want}, )").len() + 2 * size) {
+                            return report("arith-costs", name, flags, &args, got, format!("Ok(cost {want}, <{size}-byte point>)"));
+                        }
+                    }
+                }
+            }
+            // variadic point operators: 0..3 operands
+            for n_args in 0..=3usize {
+                cases += 3;
+                let a1: Vec<Vec<u8>> = g1s.iter().take(n_args).cloned().collect();
+                let a2: Vec<Vec<u8>> = g2s.iter().take(n_args).cloned().collect();
+                for (name, op, args, want, size) in [
+                    ("point_add", op_point_add as Op, &a1, 101_094 + 1_343_980 * n_args as u64 + 480, 48usize),
+                    ("g1_subtract", op_bls_g1_subtract as Op, &a1, 101_094 + 1_343_980 * n_args as u64 + 480, 48),
+                    ("g2_add", op_bls_g2_add as Op, &a2, 80_000 + 1_950_000 * n_args as u64 + 960, 96),
+                ] {
+                    let got = run(op, flags, args, u64::MAX / 4);
+                    if !(got.starts_with(&format!("Ok(cost {want}, ")) && got.len() == format!("Ok(cost {want}, )").len() + 2 * size) {
+                        return report("arith-costs", name, flags, args, got, format!("Ok(cost {want}, <{size}-byte point>)"));
+                    }
                 }
             }
         }
